@@ -19,6 +19,10 @@ Three independent lines of evidence per update:
      boundary i (a write first writes half of its data), the code's own error handling runs, then the
      target is read back: old or new, loadable.
 Fidelity: histories of 1..10 updates of random values, reloaded with the real loaders.
+Several writers (lean/St4sd/Model/FsConc.lean, names / files / open handles): two or three real updates of the same file
+run in their own threads under a deterministic scheduler that preempts them only at the traced file-operation boundaries
+(class Sched); oracle after every operation: previous content or the complete text of one update; the interleaved trace
+is replayed by the model (FsConc.crashStates, concSafe, installedBy, interleave).
 """
 from __future__ import annotations
 
@@ -30,6 +34,7 @@ import json
 import os
 import shutil
 import tempfile
+import threading
 
 from harness import common
 
@@ -92,12 +97,12 @@ class _Proxy:
             if half:
                 self._fh.write(half)
                 self._fh.flush()
-                t.ops.append({"k": "append", "p": t.rel(self._p), "b": half})
+                t.record({"k": "append", "p": t.rel(self._p), "b": half})
             raise InjectedIOError(errno.ENOSPC, "injected fault while writing", self._p)
         n = self._fh.write(data)
         if t.flush_each:
             self._fh.flush()
-        t.ops.append({"k": "append", "p": t.rel(self._p), "b": data})
+        t.record({"k": "append", "p": t.rel(self._p), "b": data})
         return n
 
     def writelines(self, lines):
@@ -111,7 +116,7 @@ class _Proxy:
         self.__dict__["_closed"] = True
         fault = t.boundary("close", self._p)
         self._fh.close()
-        t.ops.append({"k": "close", "p": t.rel(self._p)})
+        t.record({"k": "close", "p": t.rel(self._p)})
         if fault:
             raise InjectedIOError(errno.EIO, "injected fault at close", self._p)
 
@@ -137,7 +142,7 @@ class Tracer:
     boundary.  `fault_at=i`: the i-th operation raises OSError instead of (or, for a write, after half of)
     its effect."""
 
-    def __init__(self, root, watch, fault_at=None, flush_each=True):
+    def __init__(self, root, watch, fault_at=None, flush_each=True, sched=None):
         # root: one directory, or {"$I": instance dir, "$O": real output dir (a shadow dir outside the instance)}
         roots = root if isinstance(root, dict) else {"$I": root}
         self.roots = [(k, os.path.realpath(v)) for k, v in roots.items()]
@@ -149,6 +154,13 @@ class Tracer:
         self.kinds = []
         self.n = 0
         self.fired = False
+        self.sched = sched        # Sched: several writers, one file operation per grant (see class Sched)
+        self.intents = []         # renames attempted: {"w","a","b","at": number of ops recorded before the attempt}
+
+    def record(self, op):
+        if self.sched is not None:
+            op["w"] = self.sched.wid()
+        self.ops.append(op)
 
     def inside(self, p):
         try:
@@ -169,6 +181,8 @@ class Tracer:
 
     def boundary(self, kind, path):
         """called just before an operation is performed; returns True when the fault fires here"""
+        if self.sched is not None:
+            self.sched.yield_()       # park until the scheduler grants this writer its next operation
         self.snapshot()
         self.kinds.append(kind)
         i = self.n
@@ -186,14 +200,14 @@ class Tracer:
         if "b" in mode:
             raise RuntimeError("C14 tracer: binary write to a state file is not modelled: %s" % file)
         truncating = "w" in mode
-        exists = os.path.exists(file)
         if self.boundary("create", file):
             raise InjectedIOError(errno.EIO, "injected fault at open", os.fspath(file))
+        exists = os.path.exists(file)
         fh = _orig_open(file, mode, *a, **k)
         if truncating or not exists:
-            self.ops.append({"k": "create", "p": self.rel(file)})
+            self.record({"k": "create", "p": self.rel(file)})
         else:
-            self.ops.append({"k": "close", "p": self.rel(file)})   # open for append: no effect on content
+            self.record({"k": "close", "p": self.rel(file)})   # open for append: no effect on content
         return _Proxy(self, fh, os.fspath(file))
 
     def _rename(self, a, b, *x, **k):
@@ -201,16 +215,33 @@ class Tracer:
             return _orig["rename"](a, b, *x, **k)
         if self.boundary("rename", b):
             raise InjectedIOError(errno.EIO, "injected fault at rename", os.fspath(a))
-        _orig["rename"](a, b, *x, **k)
-        self.ops.append({"k": "rename", "a": self.rel(a), "b": self.rel(b)})
+        if self.sched is not None:
+            self.intents.append({"w": self.sched.wid(), "a": self.rel(a), "b": self.rel(b), "at": len(self.ops)})
+        try:
+            _orig["rename"](a, b, *x, **k)
+        except FileNotFoundError:
+            # ENOENT changes nothing (as in the models); recorded so that snapshots and operations stay aligned
+            self.record({"k": "rename", "a": self.rel(a), "b": self.rel(b), "enoent": True})
+            raise
+        except BaseException:
+            self.snaps.pop()
+            raise
+        self.record({"k": "rename", "a": self.rel(a), "b": self.rel(b)})
 
     def _remove(self, p, *x, **k):
         if not self.inside(p):
             return _orig["remove"](p, *x, **k)
         if self.boundary("remove", p):
             raise InjectedIOError(errno.EIO, "injected fault at remove", os.fspath(p))
-        _orig["remove"](p, *x, **k)
-        self.ops.append({"k": "remove", "p": self.rel(p)})
+        try:
+            _orig["remove"](p, *x, **k)
+        except FileNotFoundError:
+            self.record({"k": "remove", "p": self.rel(p), "enoent": True})
+            raise
+        except BaseException:
+            self.snaps.pop()
+            raise
+        self.record({"k": "remove", "p": self.rel(p)})
 
     def __enter__(self):
         builtins.open = self._open
@@ -227,6 +258,155 @@ class Tracer:
         os.remove = _orig["remove"]
         os.unlink = _orig["unlink"]
         self.snapshot()
+        return False
+
+
+class SchedError(Exception):
+    pass
+
+
+class Sched:
+    """Deterministic cooperative scheduler for several writers (threads) of the same state file.  Exactly one
+    thread runs at any time; a writer parks at every traced file-operation boundary (Tracer.boundary) and is
+    resumed by `grant`: one grant = the pending file operation plus the code that follows it up to the next
+    boundary (the code before the first operation runs with the first operation).  The plan is a list of writer
+    ids; naming a writer that has finished does nothing (as FsConc.interleave); a writer blocked on a SchedRLock
+    held by another writer is not runnable.  After the plan the remaining writers run to completion in id order."""
+
+    TIMEOUT = 60
+
+    def __init__(self, fns, plan):
+        self.fns = list(fns)
+        self.plan = list(plan)
+        self.n = len(self.fns)
+        self.go = [threading.Event() for _ in self.fns]
+        self.back = threading.Event()
+        self.state = ["new"] * self.n          # new | parked | blocked | done
+        self.blocked_on = [None] * self.n
+        self.budget = [0] * self.n
+        self.results = [None] * self.n
+        self.errors = [None] * self.n
+        self.tid = {}
+        self.granted = []                      # writer ids in the order they were granted a step
+        self.blocked_grants = 0
+        self.threads = []
+
+    def wid(self):
+        return self.tid.get(threading.get_ident())
+
+    # worker side -----------------------------------------------------------------------------------
+    def _park(self, w, state):
+        self.state[w] = state
+        self.back.set()
+        if not self.go[w].wait(self.TIMEOUT):
+            raise SchedError("writer %d was never resumed" % w)
+        self.go[w].clear()
+
+    def yield_(self):
+        w = self.wid()
+        if w is None:
+            return
+        if self.budget[w] > 0:
+            self.budget[w] -= 1
+            return
+        self._park(w, "parked")
+        self.budget[w] -= 1
+
+    def block(self, lock):
+        w = self.wid()
+        self.blocked_on[w] = lock
+        self._park(w, "blocked")
+        self.blocked_on[w] = None
+
+    def _body(self, w):
+        self.tid[threading.get_ident()] = w
+        self.go[w].wait(self.TIMEOUT)
+        self.go[w].clear()
+        try:
+            self.results[w] = self.fns[w]()
+        except BaseException as exc:  # noqa
+            self.errors[w] = exc
+        finally:
+            self.state[w] = "done"
+            self.back.set()
+
+    # controller side -------------------------------------------------------------------------------
+    def runnable(self, w):
+        if self.state[w] == "done":
+            return False
+        if self.state[w] == "blocked":
+            lk = self.blocked_on[w]
+            return lk is None or lk.owner in (None, w)
+        return True
+
+    def grant(self, w):
+        self.budget[w] = 1
+        self.back.clear()
+        self.go[w].set()
+        if not self.back.wait(self.TIMEOUT):
+            raise SchedError("writer %d did not reach a boundary within %ds" % (w, self.TIMEOUT))
+        self.granted.append(w)
+
+    def run(self):
+        for w in range(self.n):
+            th = threading.Thread(target=self._body, args=(w,), name="c14-writer-%d" % w, daemon=True)
+            self.threads.append(th)
+            th.start()
+        try:
+            for w in self.plan:
+                if not (0 <= w < self.n) or self.state[w] == "done":
+                    continue
+                if not self.runnable(w):
+                    self.blocked_grants += 1
+                    continue
+                self.grant(w)
+            while any(st != "done" for st in self.state):
+                ws = [w for w in range(self.n) if self.runnable(w)]
+                if not ws:
+                    raise SchedError("deadlock: states %r" % (self.state,))
+                self.grant(ws[0])
+        finally:
+            # never leave a parked thread behind
+            for w in range(self.n):
+                if self.state[w] != "done":
+                    self.budget[w] = 10 ** 9
+                    self.go[w].set()
+            for th in self.threads:
+                th.join(self.TIMEOUT)
+
+
+class SchedRLock:
+    """stands for a threading.RLock of the implementation while a Sched runs (only one thread runs at a time, so the
+    lock is pure bookkeeping): a writer that finds it held by another writer is descheduled until it is released"""
+
+    def __init__(self, sched):
+        self.sched = sched
+        self.owner = None
+        self.count = 0
+        self.contended = 0
+
+    def acquire(self, blocking=True, timeout=-1):
+        w = self.sched.wid()
+        while self.owner is not None and self.owner != w:
+            self.contended += 1
+            if w is None:
+                raise SchedError("lock taken by a thread outside the scheduler")
+            self.sched.block(self)
+        self.owner = w
+        self.count += 1
+        return True
+
+    def release(self):
+        self.count -= 1
+        if self.count == 0:
+            self.owner = None
+
+    def __enter__(self):
+        self.acquire()
+        return self
+
+    def __exit__(self, *a):
+        self.release()
         return False
 
 
@@ -920,6 +1100,479 @@ def instance_case(ctx, case, workdir):
 
 
 # ----------------------------------------------------------------------------------------
+# several writers of one state file: deterministic interleavings at the file-operation boundaries
+# ----------------------------------------------------------------------------------------
+
+def complete_versions(tr):
+    """{target (relative name): [complete texts]}: the text of every write session (open .. close of one writer on one
+    path, all its writes) that the same writer, after closing it, renames or tries to rename onto the target"""
+    versions = {}
+    cur = {}
+    by_at = {}
+    for it in tr.intents:
+        by_at.setdefault(it["at"], []).append(it)
+    for i in range(len(tr.ops) + 1):
+        for it in by_at.get(i, []):
+            c = cur.get(it["w"])
+            if c and c["p"] == it["a"] and c["closed"]:
+                versions.setdefault(it["b"], []).append("".join(c["chunks"]))
+        if i == len(tr.ops):
+            break
+        op = tr.ops[i]
+        w = op.get("w")
+        if op["k"] == "create":
+            cur[w] = {"p": op["p"], "chunks": [], "closed": False}
+        elif op["k"] == "append" and w in cur and cur[w]["p"] == op["p"] and not cur[w]["closed"]:
+            cur[w]["chunks"].append(op["b"])
+        elif op["k"] == "close" and w in cur and cur[w]["p"] == op["p"]:
+            cur[w]["closed"] = True
+    return versions
+
+
+def run_concurrent(root, targets, fns, plan, flush_each, install_locks=None):
+    sched = Sched(fns, plan)
+    undo = install_locks(sched) if install_locks else None
+    try:
+        with Tracer(root, list(targets.values()), flush_each=flush_each, sched=sched) as tr:
+            sched.run()
+    finally:
+        if undo:
+            undo()
+    return tr, sched
+
+
+def switches(seq):
+    return sum(1 for a, b in zip(seq, seq[1:]) if a != b)
+
+
+def _tick(label, t=[None]):
+    if os.environ.get("C14_TIMING"):
+        import sys
+        import time
+        now = time.time()
+        if t[0] is not None:
+            sys.stderr.write("C14 timing: %-28s %.1fs\n" % (label, now - t[0]))
+        t[0] = now
+
+
+def flush_deferred(ctx, deferred):
+    """one driver invocation for the model comparisons of many interleavings"""
+    reqs = [r for rs, _ in deferred for r in rs]
+    mouts = ctx.model(reqs) if reqs else []
+    i = 0
+    for rs, fin in deferred:
+        fin(None if mouts is None else mouts[i:i + len(rs)])
+        i += len(rs)
+    del deferred[:]
+
+
+_DEFER = [None]      # when a list: model comparisons of concurrent runs are collected and answered in one batch
+
+
+def check_concurrent(ctx, case, label, root, targets, fns, loaders, install_locks=None, programs=False, defer=None):
+    """Runs the writers `fns` (one thread each) under the plan of the case; oracle: after every file operation of
+    every writer each target holds its previous content or the complete text of one update, at the end the complete
+    text of an update that was installed, and the real loader accepts it.  Flushed runs are replayed by the model."""
+    old = {n: read_disk(p) for n, p in targets.items()}
+    flush = bool(case.get("flush", True))
+    tr, sched = run_concurrent(root, targets, fns, case.get("plan", []), flush, install_locks)
+    relname = {n: tr.rel(p) for n, p in targets.items()}
+    versions = complete_versions(tr)
+    nsw = switches(sched.granted)
+    tags = ["%s:conc:writers=%d" % (label, len(fns)), "%s:conc:%s" % (label, "flushed" if flush else "buffered"),
+            "%s:conc:switches=%s" % (label, nsw if nsw < 3 else ">=3")]
+    if sched.blocked_grants:
+        tags.append("%s:conc:lock-serialised" % label)
+    lens = {len(v) for vs in versions.values() for v in vs}
+    ctx.case(case, nontrivial=nsw >= 2 or (nsw >= 1 and len(lens) >= 2), tags=tags)
+    for w, exc in enumerate(sched.errors):
+        if exc is not None:
+            if isinstance(exc, SchedError):
+                raise common.InfraError("C14 scheduler: %s" % exc)
+            # not a statement of the property by itself: whatever the update left on disk is judged below
+            ctx.tag("%s:conc:update-raised:%s" % (label, type(exc).__name__))
+    scratch = tempfile.mkdtemp(prefix="c14-probe-")
+    try:
+        firsts = {}
+        for n, p in targets.items():
+            vs = versions.get(relname[n], [])
+            allowed = [old[n]] + vs
+            snaps = [sn[relname[n]] for sn in tr.snaps]
+            first_bad = next((i for i, c in enumerate(snaps) if c not in allowed), None)
+            firsts[n] = first_bad
+            final = snaps[-1]
+            detail = {"granted": sched.granted, "old": old[n], "complete_versions": vs,
+                      "ops": ["%s:%s:%s" % (o.get("w"), o["k"], o.get("p") or o.get("b")) for o in tr.ops][:40]}
+            if first_bad is not None:
+                report(ctx, "concurrent-updates-leave-neither-old-nor-a-complete-version-" + n, case,
+                       dict(detail, after_ops=first_bad, on_disk=snaps[first_bad], final=final))
+            elif any(o["k"] == "rename" and o["b"] == relname[n] and not o.get("enoent") for o in tr.ops) and final not in vs:
+                report(ctx, "concurrent-updates-end-with-a-version-nobody-wrote-" + n, case, dict(detail, final=final))
+            if final is not None:
+                pp = os.path.join(scratch, "probe-" + os.path.basename(p))
+                write_disk(pp, final)
+                try:
+                    loaders[n](pp)
+                except Exception as exc:  # noqa
+                    report(ctx, "concurrent-updates-leave-unloadable-" + n, case,
+                           dict(detail, final=final, error=type(exc).__name__ + ": " + str(exc)[:160]))
+        ctx.extra["interleavings_run"] = ctx.extra.get("interleavings_run", 0) + 1
+        ctx.extra["crash_points_enumerated"] = ctx.extra.get("crash_points_enumerated", 0) + len(tr.snaps) * len(targets)
+        if not flush:
+            return tr, sched
+        # model: inode-level replay of the interleaved trace
+        evs = [{k: (cp(v) if k in ("p", "a", "b") else v) for k, v in o.items()} for o in tr.ops]
+        reqs = []
+        for n in targets:
+            files = [[cp(relname[m]), cp(old[m])] for m in targets if old[m] is not None]
+            reqs.append({"op": "ctrace", "target": cp(relname[n]), "files": files, "evs": evs,
+                         "versions": [cp(v) for v in versions.get(relname[n], [])]})
+        if programs:
+            ups = []
+            for w in range(len(fns)):
+                mine = [o for o in tr.ops if o.get("w") == w]
+                tmp = next((o["p"] for o in mine if o["k"] == "create"), "")
+                ups.append({"tmp": cp(tmp), "chunks": [cp(o["b"]) for o in mine if o["k"] == "append"]})
+            n0 = next(iter(targets))
+            reqs.append({"op": "sched", "target": cp(relname[n0]), "updates": ups, "sched": sched.granted})
+        def finish(mouts):
+            if mouts is None:
+                return
+            for ti, n in enumerate(targets):
+                m = mouts[ti]
+                snaps = [sn[relname[n]] for sn in tr.snaps]
+                ctx.tag("%s:conc:%s:model-safe=%s" % (label, n, m["safe"]))
+                ctx.compare("on-disk content of %s after every operation of the interleaving == FsConc.crashStates" % n, case,
+                            {"states": [uncp(x) for x in m["states"]]}, {"states": snaps})
+                ctx.compare("first mixed state of %s == FsConc.firstMixed" % n, case,
+                            {"first_mixed": m["first_mixed"]}, {"first_mixed": firsts[n]})
+                if m["safe"]:
+                    ctx.compare("concSafe => old or an installed complete version at every crash point "
+                                "(interleaved_atomic_updates_safe)", case, {"mixed": None}, {"mixed": firsts[n]})
+                    ctx.compare("texts installed over %s == FsConc.installedBy" % n, case,
+                                {"installed": sorted(uncp(x) for x in m["installed"])},
+                                {"installed": sorted(installed_texts(tr, relname[n]))})
+            if programs:
+                m = mouts[-1]
+                mine = [{k: (uncp(v) if k in ("p", "a", "b") else v) for k, v in e.items()} for e in m["evs"]]
+                real = [{k: v for k, v in o.items() if not (k == "w" and o["k"] in ("rename", "remove")) and
+                         not (k == "p" and o["k"] in ("append", "close")) and k != "enoent"} for o in tr.ops]
+                ctx.compare("operations of the scheduled updates == FsConc.interleave of their programs", case,
+                            {"evs": mine, "safe": m["safe"]}, {"evs": real, "safe": True})
+        defer = defer if defer is not None else _DEFER[0]
+        if defer is not None and not isinstance(ctx, _Probe):
+            defer.append((reqs, finish))
+        else:
+            finish(ctx.model(reqs))
+        return tr, sched
+    finally:
+        shutil.rmtree(scratch, ignore_errors=True)
+
+
+def installed_texts(tr, target):
+    """texts of the sessions whose staging file was successfully renamed onto `target` (from the recorded operations)"""
+    out = []
+    cur = {}
+    closed = {}
+    for o in tr.ops:
+        w = o.get("w")
+        if o["k"] == "create":
+            cur[w] = {"p": o["p"], "chunks": []}
+            closed.pop(o["p"], None)
+        elif o["k"] == "append" and w in cur:
+            cur[w]["chunks"].append(o["b"])
+        elif o["k"] == "close" and w in cur:
+            c = cur.pop(w)
+            closed[c["p"]] = "".join(c["chunks"])
+        elif o["k"] == "rename" and not o.get("enoent"):
+            if o["b"] == target and o["a"] in closed:
+                out.append(closed[o["a"]])
+            closed.pop(o["a"], None)
+        elif o["k"] == "remove":
+            closed.pop(o["p"], None)
+    return out
+
+
+def status_conc(ctx, case, workdir):
+    """case: {"kind":"status-conc","stages":[..],"history":[[setter calls]...] (each followed by update(), sequentially),
+    "writers":[[setter calls], ...] (writer i = its own thread: the setter calls, then update()), "shared": one Status
+    object for all writers (threads of elaunch) or one object per writer loaded from the file (processes),
+    "plan":[writer ids], "flush": bool}"""
+    E = env()
+    D = E["D"]
+    path = os.path.join(workdir, "status.txt")
+    write_disk(path, None)
+    for junk in listing([workdir]) - {path}:
+        _orig["remove"](junk)
+    _FixedDT._n = 0
+    st = D.Status(path, {}, list(case["stages"]))
+    st.setCreated(D.datetime.datetime.now())
+    for rnd in case.get("history", [[]]):
+        for name, arg in rnd:
+            getattr(st, name)(arg)
+        st.update()
+    objs = []
+    for i in range(len(case["writers"])):
+        objs.append(st if case.get("shared", True) or i == 0 else D.Status.statusFromFile(path))
+
+    def mk(i):
+        def fn():
+            for name, arg in case["writers"][i]:
+                getattr(objs[i], name)(arg)
+            return bool(objs[i].update())
+        return fn
+
+    tr, sched = check_concurrent(ctx, case, "status", workdir, {"status.txt": path}, [mk(i) for i in range(len(objs))],
+                                 {"status.txt": D.Status.statusFromFile}, programs=bool(case.get("flush", True)))
+    for w, r in enumerate(sched.results):
+        if r is False:
+            ctx.tag("status:conc:update-returned-false")
+    for junk in listing([workdir]) - {path}:
+        ctx.tag("junk-temp-file-left-behind:status-conc")
+        _orig["remove"](junk)
+    return tr, sched
+
+
+def output_conc(ctx, case, workdir):
+    """two OutputAgent.updateLogs() calls (each after its own change of the key-output statuses) from two threads; the
+    RLock instanceDirectory.mtx_output that updateLogs takes is replaced by a SchedRLock for the run"""
+    E = env()
+    exp = _Exp.get(workdir, case["ncomp"], case["var"])
+    agent = E["O"].OutputAgent(exp)
+    outdir = os.path.realpath(exp.instanceDirectory.outputDir)
+    txt = os.path.join(outdir, "output.txt")
+    js = os.path.join(outdir, "output.json")
+    write_disk(txt, None)
+    write_disk(js, None)
+    agent.updateLogs()
+
+    def mk(upd):
+        def fn():
+            apply_output_update(agent, upd)
+            agent.updateLogs()
+        return fn
+
+    def install(sched):
+        real = exp.instanceDirectory.mtx_output
+        exp.instanceDirectory.mtx_output = SchedRLock(sched)
+
+        def undo():
+            exp.instanceDirectory.mtx_output = real
+        return undo
+
+    return check_concurrent(ctx, case, "output", _Exp.roots(exp), {"output.txt": txt, "output.json": js},
+                            [mk(u) for u in case["writers"]], {"output.txt": load_output_txt, "output.json": load_output_json},
+                            install_locks=install)
+
+
+def details_conc(ctx, case, workdir):
+    """StatusMonitor.try_generate_status_details() from two threads (monitor thread, main thread of elaunch at the end);
+    StatusMonitor.mtx_compute_status is replaced by a SchedRLock for the run"""
+    E = env()
+    exp = _Exp.get(workdir, case["ncomp"], case["var"])
+    mon = E["O"].StatusMonitor(exp, report_components=False)
+    docs = case["writers"]
+
+    class _DB:
+        def getWorkflowStatus(self, json_friendly=True):
+            return docs[mon_sched[0].wid() or 0]
+
+    mon_sched = [None]
+    mon._status_database = _DB()
+    outdir = os.path.realpath(exp.instanceDirectory.outputDir)
+    target = os.path.join(outdir, "status_details.json")
+    write_disk(target, json.dumps(case.get("old", {"old": 1})))
+
+    def load(p):
+        with _orig_open(p) as fh:
+            return json.load(fh)
+
+    def install(sched):
+        mon_sched[0] = sched
+        real = mon.mtx_compute_status
+        mon.mtx_compute_status = SchedRLock(sched)
+
+        def undo():
+            mon.mtx_compute_status = real
+        return undo
+
+    return check_concurrent(ctx, case, "details", _Exp.roots(exp), {"status_details.json": target},
+                            [mon.try_generate_status_details for _ in docs], {"status_details.json": load},
+                            install_locks=install)
+
+
+def instance_conc(ctx, case, workdir):
+    """FlowIRExperimentConfiguration.store_unreplicated_flowir_to_disk() from two threads (it takes no lock of its own; the
+    Controller calls it under comp_lock after a DoWhile iteration, elaunch once at start-up)"""
+    exp = _Exp.get(workdir, case["ncomp"], case["var"])
+    conf = exp.configuration
+    confdir = os.path.realpath(conf._conf_dir)
+    inst = os.path.join(confdir, "flowir_instance.yaml")
+    conf._unreplicated.set_global_variable("c14note", "-")
+    conf.store_unreplicated_flowir_to_disk()
+
+    def mk(note):
+        # each writer stores a different document (what a DoWhile iteration does by adding components): a global
+        # variable with a writer-specific value; the document is computed before the file is opened
+        def fn():
+            conf._unreplicated.set_global_variable("c14note", note)
+            conf.store_unreplicated_flowir_to_disk()
+        return fn
+
+    try:
+        return check_concurrent(ctx, case, "instance-store", _Exp.roots(exp), {"flowir_instance.yaml": inst},
+                                [mk(n) for n in case["writers"]], {"flowir_instance.yaml": load_flowir_instance})
+    finally:
+        conf._unreplicated.set_global_variable("c14note", "-")
+        conf.store_unreplicated_flowir_to_disk()
+
+
+def fs_semantics(ctx, case, workdir):
+    """case: {"kind":"fs-semantics","old": text|None,"prog":[events]}: the events (several handles, possibly on the same
+    path) are performed on the real file system and by FsConc.step; ties the inode-level model (truncation by a second
+    open, writes through a handle whose file was renamed, holes) to the kernel"""
+    d = tempfile.mkdtemp(prefix="c14-fs-", dir=workdir)
+    try:
+        t = os.path.join(d, "t")
+        write_disk(t, case.get("old"))
+        fds = {}
+        snaps = [read_disk(t)]
+        evs = []
+        for e in case["prog"]:
+            k = e["k"]
+            try:
+                if k == "create":
+                    if e["w"] in fds:
+                        fds.pop(e["w"]).close()
+                    fds[e["w"]] = _orig_open(os.path.join(d, e["p"]), "w")
+                elif k == "append":
+                    if e["w"] in fds:
+                        fds[e["w"]].write(e["b"])
+                        fds[e["w"]].flush()
+                elif k == "close":
+                    if e["w"] in fds:
+                        fds.pop(e["w"]).close()
+                elif k == "rename":
+                    _orig["rename"](os.path.join(d, e["a"]), os.path.join(d, e["b"]))
+                elif k == "remove":
+                    _orig["remove"](os.path.join(d, e["p"]))
+            except FileNotFoundError:
+                pass
+            evs.append({kk: (cp(v) if kk in ("p", "a", "b") else v) for kk, v in e.items()})
+            snaps.append(read_disk(t))
+        for fh in fds.values():
+            fh.close()
+        shared = len({e["p"] for e in case["prog"] if e["k"] == "create"}) < sum(1 for e in case["prog"] if e["k"] == "create")
+        ctx.case(case, nontrivial=len(case["prog"]) >= 4, tags=["fs-semantics", "fs-semantics:shared-path=%s" % shared])
+        reqs = [{"op": "ctrace", "target": cp("t"), "files": ([[cp("t"), cp(case["old"])]] if case.get("old") is not None else []),
+                 "evs": evs, "versions": []}]
+
+        def finish(mouts):
+            if mouts is not None:
+                ctx.tag("fs-semantics:model-safe=%s" % mouts[0]["safe"])
+                ctx.compare("content of the target after every operation (several handles) == FsConc.crashStates", case,
+                            {"states": [uncp(x) for x in mouts[0]["states"]]}, {"states": snaps})
+        if _DEFER[0] is not None and not isinstance(ctx, _Probe):
+            _DEFER[0].append((reqs, finish))
+        else:
+            finish(ctx.model(reqs))
+    finally:
+        shutil.rmtree(d, ignore_errors=True)
+
+
+def gen_fs_prog(rng):
+    paths = ["x", "x", "y", "t"]
+    prog = []
+    for _ in range(rng.randint(3, 12)):
+        r = rng.random()
+        w = rng.randint(0, 2)
+        if r < 0.25:
+            prog.append({"k": "create", "w": w, "p": rng.choice(paths)})
+        elif r < 0.6:
+            prog.append({"k": "append", "w": w, "b": "".join(rng.choice("abc123\n") for _ in range(rng.randint(0, 4)))})
+        elif r < 0.75:
+            prog.append({"k": "close", "w": w})
+        elif r < 0.93:
+            prog.append({"k": "rename", "a": rng.choice(paths), "b": rng.choice(paths)})
+        else:
+            prog.append({"k": "remove", "p": rng.choice(paths)})
+    return {"kind": "fs-semantics", "old": rng.choice([None, "", "old", "0123456789"]), "prog": prog}
+
+
+FS_CORPUS = [
+    # Witness.C14.shared_tmp_path_mixes_versions
+    {"kind": "fs-semantics", "old": "old", "prog": [
+        {"k": "create", "w": 0, "p": "x"}, {"k": "create", "w": 1, "p": "x"}, {"k": "append", "w": 1, "b": "123"},
+        {"k": "close", "w": 1}, {"k": "rename", "a": "x", "b": "t"}, {"k": "append", "w": 0, "b": "a"},
+        {"k": "close", "w": 0}, {"k": "rename", "a": "x", "b": "t"}]},
+    # Witness.C14.shared_tmp_truncation_leaves_hole
+    {"kind": "fs-semantics", "old": "old", "prog": [
+        {"k": "create", "w": 0, "p": "x"}, {"k": "append", "w": 0, "b": "ab"}, {"k": "create", "w": 1, "p": "x"},
+        {"k": "append", "w": 0, "b": "c"}, {"k": "close", "w": 0}, {"k": "rename", "a": "x", "b": "t"}]},
+]
+
+
+def pair_plan(first, i, j, counts):
+    """writer `first` performs i operations, the other writer j operations, then `first` finishes, then the other"""
+    other = 1 - first
+    return [first] * i + [other] * j + [first] * max(0, counts[first] - i) + [other] * max(0, counts[other] - j)
+
+
+def conc_family(ctx, base, runner, wd, pairs=None, random_plans=0, buffered=0):
+    """base case (without plan) -> the sequential run (to learn the number of operations of each writer), the plans
+    "writer f performs i operations, the other j, f finishes, the other finishes" for all / `pairs` sampled (f, i, j),
+    `random_plans` random plans, and `buffered` of these plans again with Python's real buffering"""
+    rng = ctx.rng
+    tr, _ = runner(ctx, dict(base, plan=[], flush=True), wd)
+    nw = len(base["writers"])
+    counts = [sum(1 for o in tr.ops if o.get("w") == w) for w in range(nw)]
+    plans = []
+    if nw == 2:
+        allp = [(f, i, j) for f in (0, 1) for i in range(counts[f] + 1) for j in range(counts[1 - f] + 1)]
+        if pairs is not None and len(allp) > pairs:
+            # always the nested forms (the other writer runs completely inside an update that is parked after its
+            # open / before its close / before its rename), the rest sampled
+            must = [(f, i, counts[1 - f]) for f in (0, 1) for i in (1, counts[f] - 2, counts[f] - 1) if 0 < i <= counts[f]]
+            allp = must + rng.sample(allp, max(0, pairs - len(must)))
+        plans += [pair_plan(f, i, j, counts) for f, i, j in allp]
+    for _ in range(random_plans):
+        pl = []
+        for w in range(nw):
+            pl += [w] * counts[w]
+        rng.shuffle(pl)
+        plans.append(pl)
+    for pl in plans:
+        runner(ctx, dict(base, plan=pl, flush=True), wd)
+    for pl in (plans if buffered >= len(plans) else rng.sample(plans, buffered)):
+        runner(ctx, dict(base, plan=pl, flush=False), wd)
+    return counts
+
+
+def gen_status_conc(rng, nwriters=2):
+    stages = ["stage%d" % i for i in range(rng.randint(1, 3))]
+    writers = []
+    for w in range(nwriters):
+        sets = [gen_set(rng, stages) for _ in range(rng.randint(0, 2))]
+        if rng.random() < 0.5:
+            sets.append(["setErrorDescription", "\n".join(rng.choice(WORDS) for _ in range(rng.randint(1, 5)))])
+        writers.append(sets)
+    return {"kind": "status-conc", "stages": stages, "history": [[gen_set(rng, stages) for _ in range(rng.randint(0, 2))]],
+            "writers": writers, "shared": rng.random() < 0.7}
+
+
+STATUS_CONC_CORPUS = [
+    # the StatusMonitor thread records progress while the main thread of elaunch records a failure (multi-line description)
+    {"kind": "status-conc", "stages": ["stage0", "stage1"],
+     "history": [[["setCurrentStage", "stage0"], ["setStageState", "running"], ["setExperimentState", "running"]]],
+     "writers": [[["setStageProgress", 0.5]],
+                 [["setExitStatus", "Failed"], ["setStageState", "failed"], ["setExperimentState", "failed"],
+                  ["setErrorDescription", "Unexpected exception reached top level\n  File \"control.py\", line 100, in stage_0\n"
+                                          "\traise ValueError(\"component 0 = failed\")\nValueError: component 0 = failed"]]],
+     "shared": True},
+]
+
+
+# ----------------------------------------------------------------------------------------
 # generators of the remaining case kinds
 # ----------------------------------------------------------------------------------------
 
@@ -1113,6 +1766,20 @@ def dispatch(ctx, case):
         instance_case(ctx, case, workdir())
     elif k == "escape":
         check_escape(ctx, [case["s"]])
+    elif k == "status-conc":
+        d = tempfile.mkdtemp(prefix="c14-sc-")
+        try:
+            status_conc(ctx, case, d)
+        finally:
+            shutil.rmtree(d, ignore_errors=True)
+    elif k == "output-conc":
+        output_conc(ctx, case, workdir())
+    elif k == "details-conc":
+        details_conc(ctx, case, workdir())
+    elif k == "instance-conc":
+        instance_conc(ctx, case, workdir())
+    elif k == "fs-semantics":
+        fs_semantics(ctx, case, workdir())
     else:
         raise common.InfraError("unknown C14 case kind %r" % k)
 
@@ -1139,7 +1806,20 @@ def _setup(ctx):
                 "manifest.yaml on a real Experiment instance: non-trivial = trace with >= 3 crash points; every crash point "
                 "snapshotted (flushed and buffered), OSError injected at the sampled (quick) or all (thorough, <= 400) "
                 "boundaries. (c) key-output listings: 1..6 updateLogs() with generated relative paths, reloaded with "
-                "Experiment._parse_outputs_file. (d) strings through the unicode_escape codec. Distinct by canonical JSON.")
+                "Experiment._parse_outputs_file. (d) strings through the unicode_escape codec. (e) several writers of one file: "
+                "2-3 real Status.update() calls (each preceded by its own setter calls, on one shared Status object or one "
+                "object per writer), 2 OutputAgent.updateLogs(), 2 StatusMonitor.try_generate_status_details(), 2 "
+                "store_unreplicated_flowir_to_disk() storing different documents, each writer in its own thread under a "
+                "deterministic scheduler that switches writers only at the traced file-operation boundaries (one grant = one "
+                "file operation); plans = 'writer f performs i operations, the other j, f finishes, the other finishes' for "
+                "ALL (f, i, j) on the corpus status case (both orders, every write flushed) and sampled (f, i, j) plus random "
+                "plans elsewhere, a sample again with Python's real buffering; the RLocks the implementation takes "
+                "(instanceDirectory.mtx_output, StatusMonitor.mtx_compute_status) are replaced by scheduler-aware locks; after "
+                "every operation every target must hold its previous content or the complete text one update wrote between "
+                "its open and its close, at the end a text that was installed, and the loader must accept it; non-trivial = "
+                ">= 2 writer switches, or 1 switch and complete texts of different lengths. (f) random programs of file "
+                "operations through several handles (shared paths included) on the real file system vs FsConc.step. "
+                "Distinct by canonical JSON.")
     ctx.assumptions = [
         "os.rename/os.replace atomically replace the target; open(...,'w') truncates; a flushed write reaches the file (POSIX)",
         "crash = process death at a Python-level file-operation boundary; the flushed run makes every write a boundary, the "
@@ -1148,9 +1828,22 @@ def _setup(ctx):
         "fields take values from their real domains (state names, numbers, stage names, time stamps)",
         "values are Unicode scalar values (no lone surrogates)",
         "StatusDB is a stub returning generated JSON documents; key-output statuses are set as OutputAgent.process_stage sets them",
+        "several writers: who writes what from which thread (read from the code): output/status.txt — Status.update() takes no "
+        "lock; callers: StatusMonitor thread (CheckStatus, holding instanceDirectory.mtx_output), main thread of elaunch "
+        "(after deployment and at clean-up, holding mtx_output), Experiment constructor, ewrap.py (other process), any user of "
+        "the public class; output.txt/output.json — OutputAgent.updateLogs() holds mtx_output (RLock) for its whole body; caller: "
+        "main thread of elaunch via process_stage after every stage; status_details.json — try_generate_status_details() holds "
+        "StatusMonitor.mtx_compute_status; callers: StatusMonitor thread and main thread of elaunch at clean-up; "
+        "flowir_instance.yaml — store_unreplicated_flowir_to_disk() takes no lock; callers: elaunch at start-up, Controller "
+        "thread after a DoWhile iteration (holding Controller.comp_lock); manifest.yaml — _generate_instance_files at start-up only",
+        "writers are preempted only at Python-level file-operation boundaries (open/write/close/rename/remove); preemption inside "
+        "pure Python code between two file operations is not explored (the writers share no other mutable state on the write path: "
+        "Status.writeToStream copies the dictionary before the first write)",
     ]
     ctx.trusted.append("C14: tracer of builtins.open/os.rename/os.replace/os.remove in harness/c14.py; PyYAML/json/configparser "
-                       "as libraries (their write patterns are traced, their parsers are the loaders)")
+                       "as libraries (their write patterns are traced, their parsers are the loaders); the cooperative scheduler "
+                       "(Sched/SchedRLock) of harness/c14.py; the kernel semantics of rename/truncate/write-at-offset through "
+                       "several handles are not assumed but compared with St4sd.FsConc on every run (case kind fs-semantics)")
 
 
 def run(ctx):
@@ -1158,6 +1851,7 @@ def run(ctx):
     rng = ctx.rng
     quick = ctx.tier == "quick"
     try:
+        _tick("start")
         env()
         # (d) escape codec
         strings = ["", "\\", "\\\\", "\n", "a\\nb", "\\x4", "\\u12", "\\", "\\q", "é", "\U0001f600", "\x7f", "\x80", "\\'", '\\"']
@@ -1187,6 +1881,52 @@ def run(ctx):
             for fresh in (True, False):
                 dispatch(ctx, dict(kind="instance", writer="store", fresh=fresh, **p))
                 dispatch(ctx, dict(kind="instance", writer="generate", fresh=fresh, reload=(not fresh), **p))
+        # (e) several writers of one file: deterministic interleavings at the file-operation boundaries
+        _DEFER[0] = []
+        _tick("single-writer parts")
+        try:
+            for c in FS_CORPUS + [gen_fs_prog(rng) for _ in range(150 if quick else 1500)]:
+                dispatch(ctx, c)
+            flush_deferred(ctx, _DEFER[0])
+            _tick("fs-semantics")
+            d = tempfile.mkdtemp(prefix="c14-sc-")
+            try:
+                def srun(cx, case, wd):
+                    return status_conc(cx, case, wd)
+                for base in STATUS_CONC_CORPUS:
+                    # all boundary pairs, both orders, flushed; a sample of them with Python's buffering
+                    conc_family(ctx, base, srun, d, pairs=None, random_plans=20 if quick else 200,
+                                buffered=80 if quick else 10 ** 6)
+                    flush_deferred(ctx, _DEFER[0])
+                _tick("status-conc corpus")
+                for _ in range(4 if quick else 40):
+                    conc_family(ctx, gen_status_conc(rng), srun, d, pairs=24 if quick else 200, random_plans=6 if quick else 40,
+                                buffered=8 if quick else 60)
+                for _ in range(2 if quick else 15):
+                    conc_family(ctx, gen_status_conc(rng, 3), srun, d, random_plans=8 if quick else 40, buffered=3 if quick else 10)
+                flush_deferred(ctx, _DEFER[0])
+                _tick("status-conc generated")
+            finally:
+                shutil.rmtree(d, ignore_errors=True)
+            for p in params:
+                wd = workdir()
+                for _ in range(1 if quick else 4):
+                    a, b = gen_output_case(rng, True, p), gen_output_case(rng, True, p)
+                    conc_family(ctx, dict(kind="output-conc", writers=[a["updates"][0], b["updates"][-1]], **p),
+                                lambda cx, case, w: output_conc(cx, case, w), wd, pairs=10 if quick else 80,
+                                random_plans=2 if quick else 10, buffered=3 if quick else 10)
+                for _ in range(1 if quick else 4):
+                    docs = gen_details_case(rng, p)["docs"]
+                    conc_family(ctx, dict(kind="details-conc", writers=[docs[0], docs[-1] if len(docs) > 1 else {"other": [1, 2, 3]}], **p),
+                                lambda cx, case, w: details_conc(cx, case, w), wd, pairs=8 if quick else 60,
+                                random_plans=2 if quick else 10, buffered=2 if quick else 10)
+                conc_family(ctx, dict(kind="instance-conc", writers=["w0", "writer one " * rng.randint(2, 9)], **p),
+                            lambda cx, case, w: instance_conc(cx, case, w), wd, pairs=5 if quick else 40,
+                            random_plans=1 if quick else 6, buffered=1 if quick else 6)
+                flush_deferred(ctx, _DEFER[0])
+                _tick("output/details/instance conc")
+        finally:
+            _DEFER[0] = None
         ctx.exhaustive = not quick
     finally:
         cleanup()
